@@ -89,6 +89,12 @@ def cases(tier, seed):
             va = [dict(keys=list(reversed(ka)), how='perm'), dict(keys=[0] + ka, how='pad'), dict(keys=ka + [15], how='pad'), dict(keys=None, how='asfullmv')]
             out.append(dict(kind='unary', cfg=cfg, op='inv', ka=ka, va=va))
             out.append(dict(kind='binary', cfg=cfg, op='div', ka=[1, 2], kb=ka, va=[dict(keys=[2, 1], how='perm')], vb=va[:3]))
+    # configuration fuzz over all construction axes
+    for i in range(60 if tier == 'quick' else 600):
+        cfg, d = pat.random_cfg(rng, d=rng.choice((2, 2, 3, 3)))
+        op = rng.choice(BIN[:11])
+        ka, kb = list(pat.random_pattern(rng, d, max_len=4, allow_empty=False)), list(pat.random_pattern(rng, d, max_len=4, allow_empty=False))
+        out.append(dict(kind='binary', cfg=cfg, op=op, ka=ka, kb=kb, va=rng.sample(_variants(ka, d, rng), 2), vb=rng.sample(_variants(kb, d, rng), 2)))
     for cfg in cfgs:
         d = 3 if cfg.get('name') == '2DPGA' else (4 if cfg.get('name') == '3DPGA' else sum(v for k, v in cfg.items() if k in 'pqr'))
         nondeg = cfg.get('r', 0) == 0 and 'name' not in cfg
